@@ -95,6 +95,16 @@ def compute_inexact_flow_decomp_safe_paths(
     safe_paths_set = set()
     safe_paths_list = []
 
+    # The bounds are read as Python numbers: the differences below are negative at times, and unsigned numpy
+    # integers would wrap around instead
+    def lower(u, v):
+        value = G.edges[u, v][lowerbound_attr]
+        return value.item() if hasattr(value, "item") else value
+
+    def upper(u, v):
+        value = G.edges[u, v][upperbound_attr]
+        return value.item() if hasattr(value, "item") else value
+
     # The algorithm follows a two pointer approach computing inexact excess flow
     # See https://doi.org/10.1007/978-3-031-04749-7_11 and https://doi.org/10.4230/LIPIcs.SEA.2024.14
 
@@ -115,13 +125,13 @@ def compute_inexact_flow_decomp_safe_paths(
                 assert inexact_excess == 0
 
                 R += 1
-                inexact_excess = G.edges[path[L], path[R]][lowerbound_attr]
+                inexact_excess = lower(path[L], path[R])
                 safe_path.append(path[R])
                 path_not_suffix_of_previous = True
 
             # Maximally extend the safe path to the right
             while R+1 < len(path):
-                rightdiff = G.edges[path[R], path[R+1]][upperbound_attr] - sum(G.edges[u, v][upperbound_attr] for u, v in G.out_edges(path[R]))
+                rightdiff = upper(path[R], path[R+1]) - sum(upper(u, v) for u, v in G.out_edges(path[R]))
 
                 if inexact_excess + rightdiff <= 0:
                     break
@@ -135,10 +145,10 @@ def compute_inexact_flow_decomp_safe_paths(
                 safe_paths_set.add(tuple(safe_path.copy())) if no_duplicates else safe_paths_list.append(safe_path.copy())
 
             # Remove the left most edge of the safe path
-            inexact_excess -= G.edges[path[L], path[L+1]][lowerbound_attr]
+            inexact_excess -= lower(path[L], path[L+1])
             if L+1 < R:
-                inexact_excess += sum(G.edges[u, v][upperbound_attr] for u, v in G.out_edges(path[L+1])) - G.edges[path[L+1], path[L+2]][upperbound_attr]
-                inexact_excess += G.edges[path[L+1], path[L+2]][lowerbound_attr]
+                inexact_excess += sum(upper(u, v) for u, v in G.out_edges(path[L+1])) - upper(path[L+1], path[L+2])
+                inexact_excess += lower(path[L+1], path[L+2])
             safe_path.popleft()
             L += 1
             path_not_suffix_of_previous = False
